@@ -209,10 +209,6 @@ type World struct {
 	reports []Report
 	cbSeq   int
 	curCB   int
-	// fresh ids for values / keys created by visitors and callbacks
-	nextVal   int64
-	nextKey   int
-	reentrant bool // callbacks call back into the cache
 	cbAtCtor  int   // id of the callback installed at construction (0: none)
 	defAtCtor int64 // default TTL in force after construction
 }
@@ -224,8 +220,11 @@ func (w *World) seq() uint64 {
 	return w.sim.Seq
 }
 
-func (w *World) freshVal() int64 { w.nextVal++; return w.nextVal }
-func (w *World) freshKey() int   { w.nextKey++; return w.nextKey }
+// Values and keys created by visitors and callbacks are functions of the
+// visited pair only (not of the visiting order, which legitimately differs
+// between bucket layouts), so that twin and sibling instances stay comparable.
+func derivedVal(k int, v int64) int64 { return 1000000 + (v*31+int64(k))%8000000 }
+func derivedKey(k int) int           { return freshBase + k%997 }
 
 func (w *World) curTaskID() int {
 	if t := simrt.CurTask(); t != nil {
@@ -370,18 +369,18 @@ func (w *World) visitor(r *Rec, isMap bool) func(k int, v int64) bool {
 			}
 		case VisStoreSelf:
 			if isMap {
-				w.ExecMap(Op{K: MStore, Key: k, Val: w.freshVal()}, true)
+				w.ExecMap(Op{K: MStore, Key: k, Val: derivedVal(k, v)}, true)
 			} else {
-				w.ExecCache(Op{K: CSet, Key: k, Val: w.freshVal(), D: r.Op.D}, true)
+				w.ExecCache(Op{K: CSet, Key: k, Val: derivedVal(k, v), D: r.Op.D}, true)
 			}
 		case VisInsertNew:
 			if len(r.Visits) > 3 {
 				break // a few fresh keys per traversal are enough
 			}
 			if isMap {
-				w.ExecMap(Op{K: MStore, Key: w.freshKey(), Val: w.freshVal()}, true)
+				w.ExecMap(Op{K: MStore, Key: derivedKey(k), Val: derivedVal(k, v)}, true)
 			} else {
-				w.ExecCache(Op{K: CSet, Key: w.freshKey(), Val: w.freshVal(), D: r.Op.D}, true)
+				w.ExecCache(Op{K: CSet, Key: derivedKey(k), Val: derivedVal(k, v), D: r.Op.D}, true)
 			}
 		case VisLoadOther:
 			if isMap {
@@ -390,7 +389,7 @@ func (w *World) visitor(r *Rec, isMap bool) func(k int, v int64) bool {
 				w.ExecCache(Op{K: CGet, Key: r.Op.Key}, true)
 			}
 		case VisAll:
-			w.reenterAll(isMap, k, len(r.Visits))
+			w.reenterAll(isMap, k, v)
 		}
 		if r.Op.Stop > 0 && len(r.Visits) >= r.Op.Stop {
 			return false
@@ -401,17 +400,18 @@ func (w *World) visitor(r *Rec, isMap bool) func(k int, v int64) bool {
 
 // reenterAll calls a rotating selection of methods of the same container from
 // inside a visitor or callback (C13 re-entrancy).
-func (w *World) reenterAll(isMap bool, k int, n int) {
+func (w *World) reenterAll(isMap bool, k int, v int64) {
+	n := int((v + int64(k)) % 1000)
 	if isMap {
 		switch n % 6 {
 		case 0:
 			w.ExecMap(Op{K: MLoad, Key: k}, true)
 		case 1:
-			w.ExecMap(Op{K: MStore, Key: k, Val: w.freshVal()}, true)
+			w.ExecMap(Op{K: MStore, Key: k, Val: derivedVal(k, v)}, true)
 		case 2:
 			w.ExecMap(Op{K: MCompute, Key: k, Fn: FnDelete}, true)
 		case 3:
-			w.ExecMap(Op{K: MLoadOrStore, Key: w.freshKey(), Val: w.freshVal()}, true)
+			w.ExecMap(Op{K: MLoadOrStore, Key: derivedKey(k), Val: derivedVal(k, v)}, true)
 		case 4:
 			w.ExecMap(Op{K: MSize}, true)
 		case 5:
@@ -423,11 +423,11 @@ func (w *World) reenterAll(isMap bool, k int, n int) {
 	case 0:
 		w.ExecCache(Op{K: CGet, Key: k}, true)
 	case 1:
-		w.ExecCache(Op{K: CSet, Key: k, Val: w.freshVal(), D: 1000}, true)
+		w.ExecCache(Op{K: CSet, Key: k, Val: derivedVal(k, v), D: 1000}, true)
 	case 2:
 		w.ExecCache(Op{K: CDelete, Key: k}, true)
 	case 3:
-		w.ExecCache(Op{K: CGetOrSet, Key: w.freshKey(), Val: w.freshVal()}, true)
+		w.ExecCache(Op{K: CGetOrSet, Key: derivedKey(k), Val: derivedVal(k, v)}, true)
 	case 4:
 		w.ExecCache(Op{K: CCount}, true)
 	case 5:
@@ -456,7 +456,7 @@ func (w *World) callback(kind int) (func(k int, v int64), int) {
 		}
 		w.reports = append(w.reports, Report{CB: id, K: k, V: v, Task: tid, OpIx: opIx, Seq: w.seq()})
 		if kind == 2 {
-			w.reenterAll(false, k, len(w.reports))
+			w.reenterAll(false, k, v)
 		}
 	}, id
 }
@@ -475,6 +475,15 @@ func (w *World) ExecCache(op Op, nested bool) *Rec {
 		w.sim.Advance(op.D, true, mt)
 		r.Ret = w.seq()
 		return r
+	}
+	if op.K == XBulkDelete && !isPrefillKey(op.Key) {
+		// a bulk delete of ordinary keys is a series of Delete calls, each
+		// with its own record (callbacks may fire inside each of them)
+		var last *Rec
+		for i := 0; i < op.N; i++ {
+			last = w.ExecCache(Op{K: CDelete, Key: op.Key + i}, nested)
+		}
+		return last
 	}
 	r := w.begin(op, nested)
 	c := w.c
